@@ -330,6 +330,13 @@ impl core::fmt::Display for Point { fn fmt(&self, f: &mut core::fmt::Formatter<'
 impl core::str::FromStr for Point { type Err = MyErr; fn from_str(s: &str) -> Result<Self, MyErr> { if s.is_empty() { Err(MyErr::Bad) } else { Ok(Point { x: s.len() as i32, y: 0 }) } } }
 pub fn san_point(p: Point) -> Point { Point { x: p.x.abs(), y: p.y } }
 pub fn pred_point(p: &Point) -> bool { p.x != p.y }
+// an inner type with an inherent `from_str` next to its FromStr impl: `<Temp>::from_str(..)` and `str::parse::<Temp>()` differ
+#[derive(Debug, Clone, Copy, PartialEq, PartialOrd)]
+pub struct Temp(pub i32);
+impl core::str::FromStr for Temp { type Err = MyErr; fn from_str(s: &str) -> Result<Self, MyErr> { s.parse::<i32>().map(Temp).map_err(|_| MyErr::Bad) } }
+impl Temp { pub fn from_str(s: &str) -> Result<Self, MyErr> { s.trim().parse::<i32>().map(|x| Temp(x + 1)).map_err(|_| MyErr::Worse(0)) } }
+impl core::fmt::Display for Temp { fn fmt(&self, f: &mut core::fmt::Formatter<'_>) -> core::fmt::Result { write!(f, "{}", self.0) } }
+pub fn pred_temp(t: &Temp) -> bool { t.0 > -273 }
 pub mod helpers {
     pub fn pred_h(s: &str) -> bool { s.len() != 5 }
     pub fn san_h(s: String) -> String { s.replace('q', "k") }
@@ -355,6 +362,38 @@ impl core::str::FromStr for Point { type Err = MyErr; fn from_str(s: &str) -> Re
 pub fn san_point(p: Point) -> Point { Point { x: p.x.abs(), y: p.y } }
 pub fn pred_point(p: &Point) -> bool { p.x != p.y }
 pub fn check_point(p: &Point) -> Result<(), MyErr> { if p.x >= 0 { Ok(()) } else { Err(MyErr::Worse(p.x)) } }
+'''
+
+PRELUDE_TRICKY = '''
+// ... and one whose inherent methods shadow every trait method a template could be tempted to call with method syntax
+#[derive(Debug, PartialEq, Eq, PartialOrd, Ord, Hash, Default)]
+pub struct Tricky(pub i32);
+impl Clone for Tricky { fn clone(&self) -> Self { Tricky(self.0) } }
+impl core::fmt::Display for Tricky { fn fmt(&self, f: &mut core::fmt::Formatter<'_>) -> core::fmt::Result { write!(f, "t{}", self.0) } }
+impl core::str::FromStr for Tricky { type Err = MyErr; fn from_str(s: &str) -> Result<Self, MyErr> { s.parse::<i32>().map(Tricky).map_err(|_| MyErr::Bad) } }
+impl serde::Serialize for Tricky { fn serialize<S: serde::Serializer>(&self, s: S) -> Result<S::Ok, S::Error> { s.serialize_i32(self.0) } }
+impl<'de> serde::Deserialize<'de> for Tricky { fn deserialize<D: serde::Deserializer<'de>>(d: D) -> Result<Self, D::Error> { <i32 as serde::Deserialize>::deserialize(d).map(Tricky) } }
+impl<'a> arbitrary::Arbitrary<'a> for Tricky { fn arbitrary(u: &mut arbitrary::Unstructured<'a>) -> arbitrary::Result<Self> { Ok(Tricky(u.arbitrary()?)) } }
+#[allow(clippy::should_implement_trait, clippy::wrong_self_convention)]
+impl Tricky {
+    pub fn clone(&self) -> Self { Tricky(self.0 + 1) }
+    pub fn fmt(&self, _f: &mut core::fmt::Formatter<'_>) -> core::fmt::Result { Err(core::fmt::Error) }
+    pub fn from_str(_s: &str) -> Result<Self, MyErr> { Ok(Tricky(-1)) }
+    pub fn to_string(&self) -> String { String::from("inherent") }
+    pub fn eq(&self, _o: &Self) -> bool { true }
+    pub fn cmp(&self, _o: &Self) -> core::cmp::Ordering { core::cmp::Ordering::Equal }
+    pub fn partial_cmp(&self, _o: &Self) -> Option<core::cmp::Ordering> { None }
+    pub fn hash<H>(&self, _h: &mut H) {}
+    pub fn default() -> Self { Tricky(99) }
+    pub fn as_ref(&self) -> &Self { self }
+    pub fn borrow(&self) -> &Self { self }
+    pub fn serialize<S>(&self, _s: S) -> Result<(), ()> { Ok(()) }
+    pub fn deserialize<D>(_d: D) -> Result<Self, ()> { Ok(Tricky(-2)) }
+    pub fn arbitrary<U>(_u: U) -> Result<Self, ()> { Ok(Tricky(-3)) }
+    pub fn into(self) -> i32 { self.0 }
+    pub fn try_into(self) -> Result<i32, ()> { Ok(self.0) }
+}
+pub fn pred_tricky(t: &Tricky) -> bool { t.0 != 13 }
 '''
 
 PRELUDE_REGEX = '''
@@ -1117,6 +1156,14 @@ def build(tier='quick', seed=0):
                          sanitizers=[S('with', 'san_point', 'path', callee='san_point')], derives=['Debug', 'TryFrom', 'Clone'],
                          split={'derive': 1, 'adjacent': adjacent}, expect='either', tags=['repeat']))
 
+    # ---------------- bounds that start with a literal and continue with an operator -----------------
+    # the pinned tree refuses them ("expected `,`"); a tree that accepts them must enforce the value of the whole expression
+    for fam, t, kind, text, value in (('int', 'i32', 'less', '1 << 4', 16), ('int', 'u8', 'less_or_equal', '10 - 1', 9), ('int', 'i64', 'greater', '2 * 8', 16),
+                                      ('float', 'f64', 'less', '2.5 * 2.0', 5.0), ('string', 'String', 'len_char_max', '2 * 8', 16),
+                                      ('int', 'i32', 'greater_or_equal', '5 as i32', 5)):
+        full.append(decl(fam, t, validators=[V(kind, text, value, 'expr')], derives=['Debug', 'TryFrom'] + (['Arbitrary'] if fam == 'int' else []),
+                         expect='either', tags=['lit-then-op']))
+
     # ---------------- visibility -------------------------------------------------------
     for vis in ('', 'pub(crate)', 'pub'):
         full.append(decl('int', 'i32', validators=[V('less', '10', 10, 'lit')], derives=['Debug', 'FromStr'], vis=vis, tags=['vis']))
@@ -1177,6 +1224,14 @@ def build(tier='quick', seed=0):
                       derives=['Debug', 'Clone', 'PartialEq', 'AsRef', 'Deref', 'Into', 'From'], tags=['nostd']))
     nostd.append(decl('any', 'Point', custom={'with_text': 'check_point', 'form': 'path', 'callee': 'check_point', 'error': 'MyErr'},
                       derives=['Debug', 'TryFrom', 'FromStr'], tags=['nostd']))
+
+    full.append(decl('any', 'Temp', validators=[V('predicate', 'pred_temp', form='path', callee='pred_temp')], derives=['Debug', 'Clone', 'Copy', 'PartialEq', 'FromStr', 'TryFrom', 'Display'],
+                     tags=['inherent-from-str']))
+    full.append(decl('any', 'Temp', derives=['Debug', 'FromStr', 'From', 'Display', 'AsRef'], tags=['inherent-from-str']))
+
+    tricky_ds = ['Debug', 'Clone', 'PartialEq', 'Eq', 'PartialOrd', 'Ord', 'Hash', 'AsRef', 'Deref', 'Borrow', 'Into', 'Display', 'FromStr', 'Serialize', 'Deserialize']
+    full.append(decl('any', 'Tricky', validators=[V('predicate', 'pred_tricky', form='path', callee='pred_tricky')], derives=tricky_ds + ['TryFrom'], tags=['inherent-shadowing']))
+    full.append(decl('any', 'Tricky', derives=tricky_ds + ['From', 'Arbitrary', 'Default'], default={'text': 'Tricky(7)', 'value': None}, tags=['inherent-shadowing']))
 
     # schemars08: a transparent derive next to the generated ones
     full.append(decl('int', 'i32', validators=[V('greater_or_equal', '1', 1, 'lit'), V('less', '100', 100, 'lit')],
@@ -1333,7 +1388,7 @@ def build(tier='quick', seed=0):
     for i, ch in enumerate(chunks):
         crates[f'cfull{i}'] = {'features': ['serde', 'arbitrary', 'new_unchecked', 'regex', 'schemars08'], 'std': True,
                                'edition': '2024' if i == 1 else '2021',    # one chunk of the grid is an edition-2024 user crate
-                               'prelude': PRELUDE_STD + PRELUDE_REGEX + extra + numeric_prelude(), 'decls': ch}
+                               'prelude': PRELUDE_STD + PRELUDE_REGEX + PRELUDE_TRICKY + extra + numeric_prelude(), 'decls': ch}
     bare = []
     for d in full:
         if len(bare) >= (400 if thorough else 90):
